@@ -77,43 +77,65 @@ Proof.
     apply IH in H. destruct H as [H1 [H2 H3]]. rewrite H1, H2, H3, E1, E2, E3, <- app_assoc. auto.
 Qed.
 
-Lemma add_missing_present : forall ns g,
-  (forall n, In n ns -> hid (g_nodes g) (n_id n) = true) -> mfold add_missing ns g = Ok g.
+Lemma find_node_in : forall l n, NoDup (map n_id l) -> In n l -> find_node (n_id n) l = Some n.
 Proof.
-  intros ns g H. apply mfold_id. intros x Hx. unfold add_missing, has_node_id.
-  specialize (H x Hx). unfold hid in H. rewrite H. reflexivity.
+  unfold find_node. induction l as [|x l IH]; simpl; intros n N Hn; [contradiction|].
+  inversion N as [|? ? N1 N2]; subst. destruct Hn as [->|Hn].
+  - rewrite Nat.eqb_refl. reflexivity.
+  - destruct (Nat.eqb (n_id x) (n_id n)) eqn:E.
+    + apply Nat.eqb_eq in E. exfalso. apply N1. rewrite E. apply in_map. exact Hn.
+    + apply IH; assumption.
+Qed.
+
+(** nodes that are already in the graph (by value) are not added again *)
+Lemma check_new_nodes_present : forall existing ns,
+  NoDup (map n_id existing) -> (forall n, In n ns -> In n existing) ->
+  check_new_nodes existing [] ns = Ok [].
+Proof.
+  induction ns as [|n ns IH]; simpl; intros N H; [reflexivity|].
+  rewrite (find_node_in existing n N (H n (or_introl eq_refl))).
+  rewrite (proj2 (node_eqb_eq n n) eq_refl). apply IH; auto.
+Qed.
+
+Lemma add_new_nodes_present : forall g ns,
+  NoDup (map n_id (g_nodes g)) -> (forall n, In n ns -> In n (g_nodes g)) ->
+  add_new_nodes g ns = Ok g.
+Proof.
+  intros g ns N H. unfold add_new_nodes. rewrite (check_new_nodes_present _ _ N H). reflexivity.
 Qed.
 
 Lemma set_ext_ok : forall g ns g',
-  (forall n, In n ns -> hid (g_nodes g) (n_id n) = true) -> set_ext g ns = Ok g' ->
+  NoDup (map n_id (g_nodes g)) -> (forall n, In n ns -> In n (g_nodes g)) -> set_ext g ns = Ok g' ->
   g_nodes g' = g_nodes g /\ g_edges g' = g_edges g /\ g_ext g' = ns.
 Proof.
-  intros g ns g' P H. unfold set_ext in H. rewrite (add_missing_present ns g P) in H.
+  intros g ns g' N P H. unfold set_ext in H. rewrite (add_new_nodes_present g ns N P) in H.
   simpl in H. injection H as <-. simpl. auto.
 Qed.
 
 Lemma add_edge_ok : forall g e g',
-  (forall n, In n (e_att e) -> hid (g_nodes g) (n_id n) = true) -> add_edge g e = Ok g' ->
+  NoDup (map n_id (g_nodes g)) -> (forall n, In n (e_att e) -> In n (g_nodes g)) ->
+  add_edge g e = Ok g' ->
   heid (g_edges g) (e_id e) = false /\
   g_nodes g' = g_nodes g /\ g_edges g' = g_edges g ++ [e] /\ g_ext g' = g_ext g.
 Proof.
-  intros g e g' P H. unfold add_edge, has_edge_id in H. fold (heid (g_edges g) (e_id e)) in H.
+  intros g e g' N P H. unfold add_edge, has_edge_id in H. fold (heid (g_edges g) (e_id e)) in H.
   destruct (heid (g_edges g) (e_id e)); [discriminate|].
-  rewrite (add_missing_present _ g P) in H. simpl in H. injection H as <-. simpl. auto.
+  rewrite (add_new_nodes_present g _ N P) in H. simpl in H. injection H as <-. simpl. auto.
 Qed.
 
 Lemma add_edges_ok : forall es g g',
-  (forall e n, In e es -> In n (e_att e) -> hid (g_nodes g) (n_id n) = true) ->
+  NoDup (map n_id (g_nodes g)) ->
+  (forall e n, In e es -> In n (e_att e) -> In n (g_nodes g)) ->
   mfold add_edge es g = Ok g' ->
   g_nodes g' = g_nodes g /\ g_edges g' = g_edges g ++ es /\ g_ext g' = g_ext g /\
   (NoDup (map e_id (g_edges g)) -> NoDup (map e_id (g_edges g'))).
 Proof.
-  induction es as [|e es IH]; simpl; intros g g' P H.
+  induction es as [|e es IH]; simpl; intros g g' N P H.
   - injection H as <-. rewrite app_nil_r. auto.
   - destruct (add_edge g e) as [g1|] eqn:E; [|discriminate].
-    apply add_edge_ok in E; [|intros n Hn; apply (P e n); auto].
+    apply add_edge_ok in E; [|exact N|intros n Hn; apply (P e n); auto].
     destruct E as [E0 [E1 [E2 E3]]].
-    apply IH in H; [|intros e' n He Hn; rewrite E1; apply (P e' n); auto].
+    apply IH in H; [|rewrite E1; exact N|intros e' n He Hn; rewrite E1; apply (P e' n); auto].
     destruct H as [H1 [H2 [H3 H4]]].
     split; [rewrite H1, E1; reflexivity|].
     split; [rewrite H2, E2, <- app_assoc; reflexivity|].
@@ -176,53 +198,170 @@ Proof. intros. unfold nt_edges. rewrite filter_In. unfold is_nt. rewrite negb_tr
 Lemma t_edges_in : forall g e, In e (t_edges g) <-> In e (g_edges g) /\ el_term (e_lab e) = true.
 Proof. intros. unfold t_edges. rewrite filter_In. reflexivity. Qed.
 
-Lemma sorted_by_id_ok : forall l s, sorted_by_id l = Ok s -> s = sort_edges l /\ mixed_ids l = false.
+(** * fresh implicit ids *)
+Definition fresh_of (base : nat) (pre : list edge) : nat :=
+  2 + 2 * Nat.div2 (fold_right Nat.max base (map e_id pre)).
+
+Lemma fresh_eid_of : forall base g, fresh_eid base g = fresh_of base (g_edges g).
+Proof. reflexivity. Qed.
+
+Lemma fold_max_ge : forall (l : list nat) b x, In x l -> x <= fold_right Nat.max b l.
 Proof.
-  unfold sorted_by_id. intros l s H. destruct (mixed_ids l); [discriminate|]. injection H as <-. auto.
+  induction l as [|a l IH]; simpl; intros b x H; [contradiction|].
+  destruct H as [->|H]; [lia|]. specialize (IH b x H). lia.
+Qed.
+Lemma fold_max_base : forall (l : list nat) b, b <= fold_right Nat.max b l.
+Proof. induction l as [|a l IH]; simpl; intros b; [lia|]. specialize (IH b). lia. Qed.
+
+Lemma lt_fresh : forall m, m < 2 + 2 * Nat.div2 m.
+Proof.
+  intros m. pose proof (Nat.div2_odd m) as E. destruct (Nat.odd m); simpl in E; lia.
+Qed.
+
+Lemma fresh_of_gt : forall base pre x, In x pre -> e_id x < fresh_of base pre.
+Proof.
+  intros base pre x H. unfold fresh_of.
+  pose proof (fold_max_ge (map e_id pre) base (e_id x) (in_map e_id _ _ H)) as L.
+  pose proof (lt_fresh (fold_right Nat.max base (map e_id pre))). lia.
+Qed.
+Lemma fresh_of_gt_base : forall base pre, base < fresh_of base pre.
+Proof.
+  intros base pre. unfold fresh_of. pose proof (fold_max_base (map e_id pre) base).
+  pose proof (lt_fresh (fold_right Nat.max base (map e_id pre))). lia.
+Qed.
+Lemma fresh_of_even : forall base pre, is_int_id (fresh_of base pre) = true.
+Proof.
+  intros. unfold is_int_id, fresh_of. change (2 + ?x) with (S (S x)).
+  rewrite Nat.even_succ_succ, Nat.even_mul. reflexivity.
+Qed.
+Lemma fresh_not_in : forall base pre, heid pre (fresh_of base pre) = false.
+Proof.
+  intros base pre. apply heid_false. intros H. apply in_map_iff in H. destruct H as [x [E Hx]].
+  pose proof (fresh_of_gt base pre x Hx). lia.
 Qed.
 
 (** * the nonterminal edges of the conjunction *)
-Definition paired_edge (m : ntmap) (p : edge * edge) : option edge :=
+(** what a new nonterminal edge looks like: paired label, attachment of edge 1, the id of edge 1
+    if that is explicit, an implicit id otherwise *)
+Definition nt_edge_rel (m : ntmap) (p : edge * edge) (e : edge) : Prop :=
+  nt_get m (e_lab (fst p), e_lab (snd p)) = Some (e_lab e) /\ e_att e = e_att (fst p) /\
+  (if is_int_id (e_id (fst p)) then is_int_id (e_id e) = true else e_id e = e_id (fst p)).
+
+(** the functional reading of the loop over the shared edges, [pre] = edges already in the graph *)
+Definition new_nt_edge (m : ntmap) (base : nat) (pre : list edge) (p : edge * edge) : option edge :=
   match nt_get m (e_lab (fst p), e_lab (snd p)) with
-  | Some l => Some {| e_id := e_id (fst p); e_lab := l; e_att := e_att (fst p) |}
+  | Some l => Some {| e_id := if is_int_id (e_id (fst p)) then fresh_of base pre else e_id (fst p);
+                      e_lab := l; e_att := e_att (fst p) |}
   | None => None
   end.
+Inductive built (m : ntmap) (base : nat) : list edge -> list (edge * edge) -> list edge -> Prop :=
+| built_nil : forall pre, built m base pre [] []
+| built_cons : forall pre p ps e es,
+    new_nt_edge m base pre p = Some e -> built m base (pre ++ [e]) ps es ->
+    built m base pre (p :: ps) (e :: es).
 
-Lemma conj_nt_edge_ok : forall m g p g',
-  (forall n, In n (e_att (fst p)) -> hid (g_nodes g) (n_id n) = true) ->
-  conj_nt_edge m g p = Ok g' ->
-  exists e, paired_edge m p = Some e /\
-    heid (g_edges g) (e_id e) = false /\ is_int_id (e_id e) = false /\
-    el_type (e_lab e) = map n_lab (e_att e) /\
-    g_nodes g' = g_nodes g /\ g_edges g' = g_edges g ++ [e] /\ g_ext g' = g_ext g.
+Lemma new_nt_edge_rel : forall m base pre p e, new_nt_edge m base pre p = Some e -> nt_edge_rel m p e.
 Proof.
-  intros m g p g' P H. unfold conj_nt_edge in H. unfold paired_edge.
-  destruct (nt_get m (e_lab (fst p), e_lab (snd p))) as [l|]; [|discriminate].
-  apply bind_ok in H. destruct H as [e [H1 H2]]. unfold mk_edge in H1.
-  destruct (is_int_id (e_id (fst p))) eqn:I; [discriminate|].
-  destruct (nats_eqb (el_type l) (map n_lab (e_att (fst p)))) eqn:T; simpl in H1; [|discriminate].
-  injection H1 as <-. apply nats_eqb_eq in T.
-  apply add_edge_ok in H2; [|exact P]. simpl in H2. destruct H2 as [A [B [C D]]].
-  eexists. split; [reflexivity|]. simpl. auto 10.
+  intros m base pre p e H. unfold new_nt_edge in H.
+  destruct (nt_get m (e_lab (fst p), e_lab (snd p))) as [l|] eqn:G; [|discriminate].
+  injection H as <-. unfold nt_edge_rel. simpl. rewrite G. split; [reflexivity|]. split; [reflexivity|].
+  destruct (is_int_id (e_id (fst p))); [apply fresh_of_even | reflexivity].
 Qed.
 
-Lemma conj_nt_edges_ok : forall m ps g g',
-  (forall p n, In p ps -> In n (e_att (fst p)) -> hid (g_nodes g) (n_id n) = true) ->
-  mfold (conj_nt_edge m) ps g = Ok g' ->
-  exists es, Forall2 (fun p e => paired_edge m p = Some e) ps es /\
-    Forall (fun e => is_int_id (e_id e) = false /\ el_type (e_lab e) = map n_lab (e_att e)) es /\
+Lemma built_rel : forall m base pre ps es, built m base pre ps es -> Forall2 (nt_edge_rel m) ps es.
+Proof.
+  induction 1 as [|pre p ps e es H B IH]; constructor; [eapply new_nt_edge_rel; eauto | exact IH].
+Qed.
+
+Lemma built_ids : forall m base pre ps es, built m base pre ps es ->
+  forall e', In e' es -> exists p', In p' ps /\
+    (is_int_id (e_id (fst p')) = true ->
+       is_int_id (e_id e') = true /\ forall x, In x pre -> e_id x < e_id e') /\
+    (is_int_id (e_id (fst p')) = false -> e_id e' = e_id (fst p')).
+Proof.
+  induction 1 as [|pre p ps e es H B IH]; intros e' He'; [contradiction|].
+  destruct He' as [<-|He'].
+  - exists p. split; [left; reflexivity|]. unfold new_nt_edge in H.
+    destruct (nt_get m (e_lab (fst p), e_lab (snd p))); [|discriminate]. injection H as <-. simpl.
+    split; intros I; rewrite I.
+    + split; [apply fresh_of_even | intros x Hx; apply fresh_of_gt; exact Hx].
+    + reflexivity.
+  - destruct (IH e' He') as [p' [Hp' [A B']]]. exists p'. split; [right; exact Hp'|]. split; [|exact B'].
+    intros I. destruct (A I) as [A1 A2]. split; [exact A1|]. intros x Hx. apply A2.
+    apply in_app_iff. left. exact Hx.
+Qed.
+
+(** the new edges are created in id order, so they are already sorted *)
+Lemma built_sorted : forall m base pre ps es, built m base pre ps es ->
+  StronglySorted (fun p q : edge * edge => le_id (fst p) (fst q)) ps -> StronglySorted le_id es.
+Proof.
+  induction 1 as [|pre p ps e es H B IH]; intros S; [constructor|].
+  inversion S as [|? ? S' F]; subst. constructor; [apply IH; exact S'|].
+  apply Forall_forall. intros e' He'.
+  destruct (built_ids _ _ _ _ _ B e' He') as [p' [Hp' [A1 A2]]].
+  rewrite Forall_forall in F. specialize (F p' Hp'). unfold le_id in *.
+  unfold new_nt_edge in H. destruct (nt_get m (e_lab (fst p), e_lab (snd p))); [|discriminate].
+  injection H as <-. simpl.
+  destruct (is_int_id (e_id (fst p))) eqn:I1; destruct (is_int_id (e_id (fst p'))) eqn:I2.
+  - destruct (A1 eq_refl) as [Ev Gt].
+    assert (L : fresh_of base pre < e_id e').
+    { apply (Gt {| e_id := fresh_of base pre; e_lab := e0; e_att := e_att (fst p) |}).
+      apply in_app_iff. right. left. reflexivity. }
+    unfold id_leb. pose proof (fresh_of_even base pre) as Ev0. unfold is_int_id in Ev, Ev0.
+    rewrite Ev0, Ev. apply Nat.leb_le. lia.
+  - rewrite (A2 eq_refl). unfold id_leb. pose proof (fresh_of_even base pre) as Ev0.
+    unfold is_int_id in Ev0, I2. rewrite Ev0, I2. reflexivity.
+  - exfalso. unfold id_leb in F. unfold is_int_id in I1, I2. rewrite I1, I2 in F. discriminate.
+  - rewrite (A2 eq_refl). exact F.
+Qed.
+
+Lemma combine_sorted_fst : forall s1 s2,
+  StronglySorted le_id s1 ->
+  StronglySorted (fun p q : edge * edge => le_id (fst p) (fst q)) (combine s1 s2).
+Proof.
+  induction s1 as [|a s1 IH]; intros [|b s2] S; simpl; try constructor.
+  - inversion S; subst. apply IH. assumption.
+  - inversion S as [|? ? S' F]; subst. apply Forall_forall. intros [x y] H. simpl.
+    apply in_combine_l in H. rewrite Forall_forall in F. apply F. exact H.
+Qed.
+
+Definition typed_edge (e : edge) : Prop := el_type (e_lab e) = map n_lab (e_att e).
+
+Lemma conj_nt_edge_ok : forall m base g p g',
+  NoDup (map n_id (g_nodes g)) -> (forall n, In n (e_att (fst p)) -> In n (g_nodes g)) ->
+  conj_nt_edge m base g p = Ok g' ->
+  exists e, new_nt_edge m base (g_edges g) p = Some e /\
+    heid (g_edges g) (e_id e) = false /\ typed_edge e /\
+    g_nodes g' = g_nodes g /\ g_edges g' = g_edges g ++ [e] /\ g_ext g' = g_ext g.
+Proof.
+  intros m base g p g' N P H. unfold conj_nt_edge in H. rewrite fresh_eid_of in H. unfold new_nt_edge.
+  destruct (nt_get m (e_lab (fst p), e_lab (snd p))) as [l|]; [|discriminate].
+  apply bind_ok in H. destruct H as [e [H1 H2]]. unfold mk_edge in H1.
+  destruct (nats_eqb (el_type l) (map n_lab (e_att (fst p)))) eqn:T; simpl in H1; [|discriminate].
+  injection H1 as <-. apply nats_eqb_eq in T.
+  apply add_edge_ok in H2; [|exact N|exact P]. simpl in H2. destruct H2 as [A [B [C D]]].
+  eexists. split; [reflexivity|]. simpl.
+  unfold typed_edge. simpl. auto 10.
+Qed.
+
+Lemma conj_nt_edges_ok : forall m base ps g g',
+  NoDup (map n_id (g_nodes g)) ->
+  (forall p n, In p ps -> In n (e_att (fst p)) -> In n (g_nodes g)) ->
+  mfold (conj_nt_edge m base) ps g = Ok g' ->
+  exists es, built m base (g_edges g) ps es /\ Forall typed_edge es /\
     g_nodes g' = g_nodes g /\ g_edges g' = g_edges g ++ es /\ g_ext g' = g_ext g /\
     (NoDup (map e_id (g_edges g)) -> NoDup (map e_id (g_edges g'))).
 Proof.
-  induction ps as [|p ps IH]; simpl; intros g g' P H.
+  induction ps as [|p ps IH]; simpl; intros g g' N P H.
   - injection H as <-. exists []. rewrite app_nil_r.
     split; [constructor|]. split; [constructor|]. auto.
-  - destruct (conj_nt_edge m g p) as [g1|] eqn:E; [|discriminate].
-    apply conj_nt_edge_ok in E; [|intros n Hn; apply (P p n); auto].
-    destruct E as [e [E1 [E2 [E3 [E4 [E5 [E6 E7]]]]]]].
-    apply IH in H; [|intros p' n Hp Hn; rewrite E5; apply (P p' n); auto].
+  - destruct (conj_nt_edge m base g p) as [g1|] eqn:E; [|discriminate].
+    apply conj_nt_edge_ok in E; [|exact N|intros n Hn; apply (P p n); auto].
+    destruct E as [e [E1 [E2 [E4 [E5 [E6 E7]]]]]].
+    apply IH in H; [|rewrite E5; exact N|intros p' n Hp Hn; rewrite E5; apply (P p' n); auto].
     destruct H as [es [F [G [H1 [H2 [H3 H4]]]]]].
-    exists (e :: es). split; [constructor; assumption|]. split; [constructor; auto|].
+    exists (e :: es). split; [econstructor; [exact E1 | rewrite <- E6; exact F]|].
+    split; [constructor; auto|].
     split; [rewrite H1, E5; reflexivity|].
     split; [rewrite H2, E6, <- app_assoc; reflexivity|].
     split; [rewrite H3, E7; reflexivity|].
@@ -230,77 +369,130 @@ Proof.
     apply NoDup_snoc; [exact ND | apply heid_false; exact E2].
 Qed.
 
+(** * the terminal edges of rule 2 *)
+Definition t2_rel (e e' : edge) : Prop :=
+  e_lab e' = e_lab e /\ e_att e' = e_att e /\ (e_id e' = e_id e \/ is_int_id (e_id e') = true).
+
+Lemma add_t2_edge_ok : forall base g e g',
+  NoDup (map n_id (g_nodes g)) -> (forall n, In n (e_att e) -> In n (g_nodes g)) ->
+  add_t2_edge base g e = Ok g' ->
+  exists e', t2_rel e e' /\ heid (g_edges g) (e_id e') = false /\
+    g_nodes g' = g_nodes g /\ g_edges g' = g_edges g ++ [e'] /\ g_ext g' = g_ext g.
+Proof.
+  intros base g e g' N P H. unfold add_t2_edge in H. destruct (has_edge_id g (e_id e)).
+  - apply bind_ok in H. destruct H as [e' [H1 H2]]. unfold mk_edge in H1.
+    destruct (nats_eqb (el_type (e_lab e)) (map n_lab (e_att e))); simpl in H1; [|discriminate].
+    injection H1 as <-. apply add_edge_ok in H2; [|exact N|exact P]. simpl in H2.
+    destruct H2 as [A [B [C D]]].
+    exists {| e_id := fresh_eid base g; e_lab := e_lab e; e_att := e_att e |}.
+    split; [|split; [exact A|auto]].
+    unfold t2_rel. split; [reflexivity|]. split; [reflexivity|]. right.
+    exact (fresh_of_even base (g_edges g)).
+  - apply add_edge_ok in H; [|exact N|exact P]. destruct H as [A [B [C D]]].
+    exists e. split; [|auto]. unfold t2_rel. auto.
+Qed.
+
+Lemma add_t2_edges_ok : forall base es g g',
+  NoDup (map n_id (g_nodes g)) ->
+  (forall e n, In e es -> In n (e_att e) -> In n (g_nodes g)) ->
+  mfold (add_t2_edge base) es g = Ok g' ->
+  exists es', Forall2 t2_rel es es' /\
+    g_nodes g' = g_nodes g /\ g_edges g' = g_edges g ++ es' /\ g_ext g' = g_ext g /\
+    (NoDup (map e_id (g_edges g)) -> NoDup (map e_id (g_edges g'))).
+Proof.
+  induction es as [|e es IH]; simpl; intros g g' N P H.
+  - injection H as <-. exists []. rewrite app_nil_r. split; [constructor|]. auto.
+  - destruct (add_t2_edge base g e) as [g1|] eqn:E; [|discriminate].
+    apply add_t2_edge_ok in E; [|exact N|intros n Hn; apply (P e n); auto].
+    destruct E as [e' [R [E0 [E1 [E2 E3]]]]].
+    apply IH in H; [|rewrite E1; exact N|intros x n Hx Hn; rewrite E1; apply (P x n); auto].
+    destruct H as [es' [F [H1 [H2 [H3 H4]]]]].
+    exists (e' :: es'). split; [constructor; assumption|].
+    split; [rewrite H1, E1; reflexivity|].
+    split; [rewrite H2, E2, <- app_assoc; reflexivity|].
+    split; [rewrite H3, E3; reflexivity|].
+    intros ND. apply H4. rewrite E2, map_app. simpl.
+    apply NoDup_snoc; [exact ND | apply heid_false; exact E0].
+Qed.
+
 (** * the structure of a conjoined rule (whenever [conjoin_rules] returns) *)
-Theorem conjoin_rules_exact : forall r1 r2 m r,
+Theorem conjoin_rules_exact : forall base r1 r2 m r,
   wf_rule r1 -> wf_rule r2 -> conjoinable_model r1 r2 = true ->
-  conjoin_rules_model r1 r2 m = Ok r ->
-  exists es,
-    Forall2 (fun p e => paired_edge m p = Some e) (combine (nt_sorted r1) (nt_sorted r2)) es /\
-    Forall (fun e => is_int_id (e_id e) = false) es /\
+  conjoin_rules_model base r1 r2 m = Ok r ->
+  exists es ts2',
+    Forall2 (nt_edge_rel m) (combine (nt_sorted r1) (nt_sorted r2)) es /\
+    StronglySorted le_id es /\
+    Forall2 t2_rel (t_edges (r_rhs r2)) ts2' /\
     nt_get m (r_lhs r1, r_lhs r2) = Some (r_lhs r) /\
     g_nodes (r_rhs r) = g_nodes (r_rhs r1) /\
-    g_edges (r_rhs r) = es ++ t_edges (r_rhs r1) ++ t_edges (r_rhs r2) /\
+    g_edges (r_rhs r) = es ++ t_edges (r_rhs r1) ++ ts2' /\
     g_ext (r_rhs r) = g_ext (r_rhs r1) /\
     wf_rule r.
 Proof.
-  intros r1 r2 m r W1 W2 C H. unfold conjoin_rules_model in H.
+  intros base r1 r2 m r W1 W2 C H. unfold conjoin_rules_model in H.
   destruct (nt_get m (r_lhs r1, r_lhs r2)) as [L|] eqn:GL; [|discriminate].
   apply bind_ok in H. destruct H as [g0 [H0 H]].
   apply bind_ok in H. destruct H as [g1 [H1 H]].
-  apply bind_ok in H. destruct H as [nts1 [S1 H]].
-  apply bind_ok in H. destruct H as [nts2 [S2 H]].
   apply bind_ok in H. destruct H as [g2 [H2 H]].
   apply bind_ok in H. destruct H as [g3 [H3 H]].
+  apply bind_ok in H. destruct H as [g4 [H4 H]].
   destruct W1 as [W1a W1b [W1n W1e W1x W1t W1y]]. destruct W2 as [W2a W2b [W2n W2e W2x W2t W2y]].
   apply conjoinable_spec in C. destruct C as [Cn [Cs Cx]].
   apply add_nodes_ok in H0. unfold empty_graph in H0. simpl in H0. destruct H0 as [A0 [B0 C0]].
-  assert (P : forall n, In n (g_nodes (r_rhs r1)) -> hid (g_nodes (r_rhs r1)) (n_id n) = true)
-    by (intros; apply hid_in; assumption).
-  apply set_ext_ok in H1; [|rewrite A0; intros n Hn; apply P; apply W1x; exact Hn].
+  apply set_ext_ok in H1; [|rewrite A0; exact W1n|rewrite A0; exact W1x].
   destruct H1 as [A1 [B1 C1]].
-  apply sorted_by_id_ok in S1. destruct S1 as [-> _].
-  apply sorted_by_id_ok in S2. destruct S2 as [-> _].
-  apply conj_nt_edges_ok in H2.
-  2:{ intros [a b] n Hp Hn. simpl in Hn. rewrite A1, A0. apply P. apply in_combine_l in Hp.
+  fold (nt_sorted r1) in H2. fold (nt_sorted r2) in H2.
+  apply conj_nt_edges_ok in H2; [|rewrite A1, A0; exact W1n|].
+  2:{ intros [a b] n Hp Hn. simpl in Hn. rewrite A1, A0. apply in_combine_l in Hp.
       apply (proj1 (sort_edges_in _ _)) in Hp. apply nt_edges_in in Hp. destruct Hp as [Hp _].
       apply (W1t a n); assumption. }
   destruct H2 as [es [F [G [A2 [B2 [C2 D2]]]]]].
-  apply add_edges_ok in H3.
-  2:{ intros e n He Hn. rewrite A2, A1, A0. apply P. apply in_app_iff in He.
-      destruct He as [He|He]; apply t_edges_in in He; destruct He as [He _].
-      - apply (W1t e n); assumption.
-      - apply (proj2 (Cn n)). apply (W2t e n); assumption. }
+  apply add_edges_ok in H3; [|rewrite A2, A1, A0; exact W1n|].
+  2:{ intros e n He Hn. rewrite A2, A1, A0. apply t_edges_in in He. destruct He as [He _].
+      apply (W1t e n); assumption. }
   destruct H3 as [A3 [B3 [C3 D3]]].
+  apply add_t2_edges_ok in H4; [|rewrite A3, A2, A1, A0; exact W1n|].
+  2:{ intros e n He Hn. rewrite A3, A2, A1, A0. apply t_edges_in in He. destruct He as [He _].
+      apply (proj2 (Cn n)). apply (W2t e n); assumption. }
+  destruct H4 as [ts2' [F2 [A4 [B4 [C4 D4]]]]].
   unfold mk_rule in H. destruct (el_term L) eqn:TL; [discriminate|].
-  destruct (nats_eqb (el_type L) (map n_lab (g_ext g3))) eqn:TT; simpl in H; [|discriminate].
+  destruct (nats_eqb (el_type L) (map n_lab (g_ext g4))) eqn:TT; simpl in H; [|discriminate].
   injection H as <-. simpl. apply nats_eqb_eq in TT.
-  assert (EN : g_nodes g3 = g_nodes (r_rhs r1)) by (rewrite A3, A2, A1, A0; reflexivity).
-  assert (EE : g_edges g3 = es ++ t_edges (r_rhs r1) ++ t_edges (r_rhs r2))
-    by (rewrite B3, B2, B1, B0; reflexivity).
-  assert (EX : g_ext g3 = g_ext (r_rhs r1)) by (rewrite C3, C2, C1; reflexivity).
-  exists es. split; [exact F|].
-  split; [eapply Forall_impl; [|exact G]; intros e [X _]; exact X|].
+  assert (EN : g_nodes g4 = g_nodes (r_rhs r1)) by (rewrite A4, A3, A2, A1, A0; reflexivity).
+  assert (EE : g_edges g4 = es ++ t_edges (r_rhs r1) ++ ts2')
+    by (rewrite B4, B3, B2, B1, B0, <- app_assoc; reflexivity).
+  assert (EX : g_ext g4 = g_ext (r_rhs r1)) by (rewrite C4, C3, C2, C1; reflexivity).
+  exists es, ts2'. split; [eapply built_rel; exact F|].
+  split. { eapply built_sorted; [exact F|]. apply combine_sorted_fst. apply sort_edges_sorted. }
+  split; [exact F2|].
   split; [reflexivity|]. split; [exact EN|]. split; [exact EE|]. split; [exact EX|].
+  pose proof (built_rel _ _ _ _ _ F) as FR.
   constructor; simpl; [exact TL | exact TT |].
   constructor.
   - rewrite EN. exact W1n.
-  - apply D3. apply D2. rewrite B1, B0. constructor.
+  - apply D4. apply D3. apply D2. rewrite B1, B0. constructor.
   - rewrite EX, EN. exact W1x.
   - rewrite EN, EE. intros e n He Hn. rewrite !in_app_iff in He. destruct He as [He|[He|He]].
-    + destruct (Forall2_in_r _ _ _ _ F He) as [[a b] [Hp Pp]]. unfold paired_edge in Pp. simpl in Pp.
-      destruct (nt_get m (e_lab a, e_lab b)); [|discriminate]. injection Pp as <-.
-      simpl in Hn. apply in_combine_l in Hp.
+    + destruct (Forall2_in_r _ _ _ _ FR He) as [[a b] [Hp [_ [Pa _]]]]. simpl in Pa. rewrite Pa in Hn.
+      apply in_combine_l in Hp.
       apply (proj1 (sort_edges_in _ _)) in Hp. apply nt_edges_in in Hp. destruct Hp as [Hp _].
       apply (W1t a n); assumption.
     + apply t_edges_in in He. destruct He as [He _]. apply (W1t e n); assumption.
-    + apply t_edges_in in He. destruct He as [He _]. apply (proj2 (Cn n)). apply (W2t e n); assumption.
+    + destruct (Forall2_in_r _ _ _ _ F2 He) as [x [Hx [_ [Pa _]]]]. rewrite Pa in Hn.
+      apply t_edges_in in Hx. destruct Hx as [Hx _]. apply (proj2 (Cn n)). apply (W2t x n); assumption.
   - rewrite EE. intros e He. rewrite !in_app_iff in He. destruct He as [He|[He|He]].
     + rewrite Forall_forall in G. apply (G e He).
     + apply t_edges_in in He. destruct He as [He _]. apply W1y. exact He.
-    + apply t_edges_in in He. destruct He as [He _]. apply W2y. exact He.
+    + destruct (Forall2_in_r _ _ _ _ F2 He) as [x [Hx [Pl [Pa _]]]]. rewrite Pl, Pa.
+      apply t_edges_in in Hx. destruct Hx as [Hx _]. apply W2y. exact Hx.
 Qed.
 
 (** * C17_rule: the specification of a conjoined rule *)
+(** how the terminal edges of the pair reappear: those of rule 1 unchanged, those of rule 2
+    unchanged or re-created under an implicit id *)
+Definition t_edge_rel (x : bool * edge) (e : edge) : Prop :=
+  if fst x then e = snd x else t2_rel (snd x) e.
+
 Definition conj_rule_spec (r1 r2 : rule) (m : ntmap) (r : rule) : Prop :=
   nt_get m (r_lhs r1, r_lhs r2) = Some (r_lhs r) /\
   (* the nodes and externals of the pair *)
@@ -308,17 +500,12 @@ Definition conj_rule_spec (r1 r2 : rule) (m : ntmap) (r : rule) : Prop :=
   (forall n, In n (g_nodes (r_rhs r)) <-> In n (g_nodes (r_rhs r2))) /\
   g_ext (r_rhs r) = g_ext (r_rhs r1) /\
   map n_id (g_ext (r_rhs r)) = map n_id (g_ext (r_rhs r2)) /\
-  (* one nonterminal edge per shared edge, with the paired label and the shared attachment *)
-  (forall e1 e2, In e1 (nt_edges (r_rhs r1)) -> In e2 (nt_edges (r_rhs r2)) -> e_id e1 = e_id e2 ->
-     exists l, nt_get m (e_lab e1, e_lab e2) = Some l /\
-               In {| e_id := e_id e1; e_lab := l; e_att := e_att e1 |} (nt_edges (r_rhs r))) /\
-  (forall e, In e (nt_edges (r_rhs r)) ->
-     exists e1 e2, In e1 (nt_edges (r_rhs r1)) /\ In e2 (nt_edges (r_rhs r2)) /\
-       e_id e1 = e_id e /\ e_id e2 = e_id e /\ e_att e = e_att e1 /\
-       map n_id (e_att e) = map n_id (e_att e2) /\
-       nt_get m (e_lab e1, e_lab e2) = Some (e_lab e)) /\
+  (* one nonterminal edge per shared edge, with the paired label and the shared attachment; the
+     shared edges are the pairs of the id-sorted nonterminal edges ([shared_pairs]) *)
+  (exists ps, Permutation ps (combine (nt_sorted r1) (nt_sorted r2)) /\
+              Forall2 (nt_edge_rel m) ps (nt_edges (r_rhs r))) /\
   (* the terminal edges of both *)
-  (forall e, In e (t_edges (r_rhs r)) <-> In e (t_edges (r_rhs r1)) \/ In e (t_edges (r_rhs r2))) /\
+  (exists ts, Permutation ts (t_todo r1 r2) /\ Forall2 t_edge_rel ts (t_edges (r_rhs r))) /\
   (* a well-typed rule (ids unique, attachments inside, labels typed, lhs typed like ext) *)
   wf_rule r.
 
@@ -346,17 +533,28 @@ Qed.
 (** the values of nt_map are nonterminal labels *)
 Definition nt_values (m : ntmap) : Prop := forall k v, nt_get m k = Some v -> el_term v = false.
 
+(** the values of nt_map are nonterminal labels *)
+Lemma Forall2_map_l {A B C} (P : B -> C -> Prop) (f : A -> B) : forall l l',
+  Forall2 (fun a c => P (f a) c) l l' -> Forall2 P (map f l) l'.
+Proof. induction 1; simpl; constructor; assumption. Qed.
+
+Lemma Forall2_app_intro {A B} (P : A -> B -> Prop) : forall l1 l1' l2 l2',
+  Forall2 P l1 l1' -> Forall2 P l2 l2' -> Forall2 P (l1 ++ l2) (l1' ++ l2').
+Proof. induction 1; simpl; intros; [assumption | constructor; auto]. Qed.
+
+Lemma Forall2_refl_map {A B} (P : B -> A -> Prop) (f : A -> B) : forall l,
+  (forall a, P (f a) a) -> Forall2 P (map f l) l.
+Proof. induction l; simpl; intros; constructor; auto. Qed.
+
 (** the nonterminal / terminal edges of a conjoined rule *)
 Lemma conj_edges_split : forall m ps es ts,
-  nt_values m -> Forall2 (fun p e => paired_edge m p = Some e) ps es ->
+  nt_values m -> Forall2 (nt_edge_rel m) ps es ->
   (forall e, In e ts -> el_term (e_lab e) = true) ->
   filter (fun e => is_nt (e_lab e)) (es ++ ts) = es /\ filter (fun e => el_term (e_lab e)) (es ++ ts) = ts.
 Proof.
   intros m ps es ts V F T.
   assert (N : forall e, In e es -> el_term (e_lab e) = false).
-  { intros e He. destruct (Forall2_in_r _ _ _ _ F He) as [p [_ Pp]]. unfold paired_edge in Pp.
-    destruct (nt_get m (e_lab (fst p), e_lab (snd p))) as [l|] eqn:G; [|discriminate].
-    injection Pp as <-. simpl. apply (V _ _ G). }
+  { intros e He. destruct (Forall2_in_r _ _ _ _ F He) as [p [_ [G _]]]. apply (V _ _ G). }
   rewrite !filter_app. split.
   - rewrite (filter_all _ es), (filter_none _ ts), app_nil_r; auto.
     + intros e He. unfold is_nt. rewrite (T e He). reflexivity.
@@ -364,44 +562,75 @@ Proof.
   - rewrite (filter_none _ es), (filter_all _ ts); auto.
 Qed.
 
-(** C17_rule for the model *)
-Theorem conjoin_rules_spec : forall r1 r2 m r,
+Lemma conj_rule_edges : forall base r1 r2 m r,
   wf_rule r1 -> wf_rule r2 -> conjoinable_model r1 r2 = true -> nt_values m ->
-  conjoin_rules_model r1 r2 m = Ok r -> conj_rule_spec r1 r2 m r.
+  conjoin_rules_model base r1 r2 m = Ok r ->
+  exists es ts2',
+    Forall2 (nt_edge_rel m) (combine (nt_sorted r1) (nt_sorted r2)) es /\ StronglySorted le_id es /\
+    Forall2 t2_rel (t_edges (r_rhs r2)) ts2' /\
+    nt_edges (r_rhs r) = es /\ t_edges (r_rhs r) = t_edges (r_rhs r1) ++ ts2' /\
+    nt_get m (r_lhs r1, r_lhs r2) = Some (r_lhs r).
 Proof.
-  intros r1 r2 m r W1 W2 C V H.
-  destruct (conjoin_rules_exact _ _ _ _ W1 W2 C H) as [es [F [_ [GL [EN [EE [EX WR]]]]]]].
-  pose proof (proj1 (conjoinable_spec _ _) C) as [Cn [Cs Cx]].
-  assert (T : forall e, In e (t_edges (r_rhs r1) ++ t_edges (r_rhs r2)) -> el_term (e_lab e) = true).
-  { intros e He. apply in_app_iff in He. destruct He as [He|He]; apply t_edges_in in He; apply He. }
+  intros base r1 r2 m r W1 W2 C V H.
+  destruct (conjoin_rules_exact _ _ _ _ _ W1 W2 C H) as [es [ts2' [F [S [F2 [GL [EN [EE [EX WR]]]]]]]]].
+  assert (T : forall e, In e (t_edges (r_rhs r1) ++ ts2') -> el_term (e_lab e) = true).
+  { intros e He. apply in_app_iff in He. destruct He as [He|He].
+    - apply t_edges_in in He. apply He.
+    - destruct (Forall2_in_r _ _ _ _ F2 He) as [x [Hx [Pl _]]]. rewrite Pl. apply t_edges_in in Hx. apply Hx. }
   destruct (conj_edges_split m _ es _ V F T) as [ENT ET].
-  assert (NT : nt_edges (r_rhs r) = es) by (unfold nt_edges; rewrite EE; exact ENT).
-  assert (TE : t_edges (r_rhs r) = t_edges (r_rhs r1) ++ t_edges (r_rhs r2))
-    by (unfold t_edges at 1; rewrite EE; exact ET).
+  exists es, ts2'. split; [exact F|]. split; [exact S|]. split; [exact F2|].
+  split; [unfold nt_edges; rewrite EE; exact ENT|].
+  split; [unfold t_edges at 1; rewrite EE; exact ET | exact GL].
+Qed.
+
+(** C17_rule for the model *)
+Theorem conjoin_rules_spec : forall base r1 r2 m r,
+  wf_rule r1 -> wf_rule r2 -> conjoinable_model r1 r2 = true -> nt_values m ->
+  conjoin_rules_model base r1 r2 m = Ok r -> conj_rule_spec r1 r2 m r.
+Proof.
+  intros base r1 r2 m r W1 W2 C V H.
+  destruct (conjoin_rules_exact _ _ _ _ _ W1 W2 C H) as [es0 [ts0 [_ [_ [_ [_ [EN [_ [EX WR]]]]]]]]].
+  destruct (conj_rule_edges _ _ _ _ _ W1 W2 C V H) as [es [ts2' [F [_ [F2 [NT [TE GL]]]]]]].
+  pose proof (proj1 (conjoinable_spec _ _) C) as [Cn [Cs Cx]].
+  unfold conj_rule_spec. rewrite NT, TE, EN, EX.
+  split; [exact GL|]. split; [tauto|]. split; [exact Cn|].
+  split; [reflexivity|]. split; [exact Cx|]. split; [|split; [|exact WR]].
+  - exists (combine (nt_sorted r1) (nt_sorted r2)). split; [reflexivity | exact F].
+  - exists (t_todo r1 r2). split; [reflexivity|]. unfold t_todo.
+    apply Forall2_app_intro.
+    + apply Forall2_refl_map. intros a. reflexivity.
+    + apply Forall2_map_l. exact F2.
+Qed.
+
+(** which edges are "shared": the pairs of the id-sorted nonterminal edges of two conjoinable
+    rules are exactly the pairs of nonterminal edges with the same id, and they have the same
+    attachment ids *)
+Theorem shared_pairs : forall r1 r2,
+  wf_rule r1 -> wf_rule r2 -> conjoinable_model r1 r2 = true ->
+  length (nt_sorted r1) = length (nt_sorted r2) /\
+  (forall e1 e2, In (e1, e2) (combine (nt_sorted r1) (nt_sorted r2)) <->
+     In e1 (nt_edges (r_rhs r1)) /\ In e2 (nt_edges (r_rhs r2)) /\ e_id e1 = e_id e2) /\
+  (forall e1 e2, In (e1, e2) (combine (nt_sorted r1) (nt_sorted r2)) ->
+     map n_id (e_att e1) = map n_id (e_att e2)).
+Proof.
+  intros r1 r2 W1 W2 C. pose proof (proj1 (conjoinable_spec _ _) C) as [_ [Cs _]].
   assert (N1 : NoDup (map e_id (nt_edges (r_rhs r1)))) by (apply NoDup_map_filter; apply W1).
   assert (N2 : NoDup (map e_id (nt_edges (r_rhs r2)))) by (apply NoDup_map_filter; apply W2).
   assert (AL : map sigf (nt_sorted r1) = map sigf (nt_sorted r2)).
   { unfold nt_sorted. apply sorted_sigs_eq; [exact N1 | exact N2 | exact Cs]. }
-  unfold conj_rule_spec. rewrite NT, TE, EN, EX.
-  split; [exact GL|]. split; [tauto|]. split; [exact Cn|].
-  split; [reflexivity|]. split; [exact Cx|]. split; [|split; [|split; [|exact WR]]].
-  - intros e1 e2 H1 H2 Eid.
-    assert (Hin : In (e1, e2) (combine (nt_sorted r1) (nt_sorted r2))).
-    { apply combine_aligned_in; auto.
-      - unfold nt_sorted. apply sort_edges_nodup. exact N2.
-      - apply (proj2 (sort_edges_in _ _)). exact H1.
-      - apply (proj2 (sort_edges_in _ _)). exact H2. }
-    destruct (Forall2_in_l _ _ _ _ F Hin) as [e [He Pe]]. unfold paired_edge in Pe. simpl in Pe.
-    destruct (nt_get m (e_lab e1, e_lab e2)) as [l|]; [|discriminate]. injection Pe as <-.
-    exists l. split; [reflexivity | exact He].
-  - intros e He. destruct (Forall2_in_r _ _ _ _ F He) as [[a b] [Hp Pp]].
-    pose proof (combine_aligned_sig _ _ _ _ AL Hp) as SG. unfold sigf in SG. injection SG as SG1 SG2.
-    unfold paired_edge in Pp. simpl in Pp.
-    destruct (nt_get m (e_lab a, e_lab b)) as [l|] eqn:G; [|discriminate]. injection Pp as <-. simpl.
-    exists a, b. split; [|split; [|split; [|split; [|split; [|split]]]]]; auto.
-    + apply (proj1 (sort_edges_in _ _)). apply in_combine_l in Hp. exact Hp.
-    + apply (proj1 (sort_edges_in _ _)). apply in_combine_r in Hp. exact Hp.
-  - intros e. apply in_app_iff.
+  split; [|split].
+  - apply (f_equal (@length _)) in AL. rewrite !map_length in AL. exact AL.
+  - intros e1 e2. split.
+    + intros H. pose proof (combine_aligned_sig _ _ _ _ AL H) as SG. unfold sigf in SG.
+      injection SG as SG1 SG2.
+      split; [apply (proj1 (sort_edges_in _ _)); apply in_combine_l in H; exact H|].
+      split; [apply (proj1 (sort_edges_in _ _)); apply in_combine_r in H; exact H | exact SG1].
+    + intros [H1 [H2 E]]. apply combine_aligned_in; auto.
+      * unfold nt_sorted. apply sort_edges_nodup. exact N2.
+      * apply (proj2 (sort_edges_in _ _)). exact H1.
+      * apply (proj2 (sort_edges_in _ _)). exact H2.
+  - intros e1 e2 H. pose proof (combine_aligned_sig _ _ _ _ AL H) as SG. unfold sigf in SG.
+    injection SG as SG1 SG2. exact SG2.
 Qed.
 
 (** the same-length fact used by the derivation bijection *)
@@ -417,39 +646,16 @@ Proof.
   apply (f_equal (@length _)) in AL. rewrite !map_length in AL. exact AL.
 Qed.
 
-(** the new nonterminal edges are created in id order, so they are already sorted *)
-Lemma paired_sorted : forall m s1 s2 es,
-  StronglySorted le_id s1 -> Forall2 (fun p e => paired_edge m p = Some e) (combine s1 s2) es ->
-  StronglySorted le_id es.
-Proof.
-  induction s1 as [|a s1 IH]; intros [|b s2] es S F; simpl in F.
-  - inversion F; subst; constructor.
-  - inversion F; subst; constructor.
-  - inversion F; subst; constructor.
-  - inversion F as [|p e ps es' Hp F']; subst. inversion S as [|? ? S' Fa]; subst.
-    constructor; [apply (IH s2); assumption|].
-    apply Forall_forall. intros e' He'. destruct (Forall2_in_r _ _ _ _ F' He') as [[a' b'] [Hin Pp]].
-    unfold paired_edge in Hp, Pp. simpl in Hp, Pp.
-    destruct (nt_get m (e_lab a, e_lab b)); [|discriminate]. injection Hp as <-.
-    destruct (nt_get m (e_lab a', e_lab b')); [|discriminate]. injection Pp as <-.
-    unfold le_id. simpl. apply in_combine_l in Hin. rewrite Forall_forall in Fa. apply (Fa a' Hin).
-Qed.
-
 (** the id-sorted nonterminal edges of the conjunction are the pairs of the id-sorted nonterminal
     edges of the two rules *)
-Lemma conj_nt_sorted : forall r1 r2 m r,
+Lemma conj_nt_sorted : forall base r1 r2 m r,
   wf_rule r1 -> wf_rule r2 -> conjoinable_model r1 r2 = true -> nt_values m ->
-  conjoin_rules_model r1 r2 m = Ok r ->
-  Forall2 (fun p e => paired_edge m p = Some e) (combine (nt_sorted r1) (nt_sorted r2)) (nt_sorted r) /\
+  conjoin_rules_model base r1 r2 m = Ok r ->
+  Forall2 (nt_edge_rel m) (combine (nt_sorted r1) (nt_sorted r2)) (nt_sorted r) /\
   nt_get m (r_lhs r1, r_lhs r2) = Some (r_lhs r).
 Proof.
-  intros r1 r2 m r W1 W2 C V H.
-  destruct (conjoin_rules_exact _ _ _ _ W1 W2 C H) as [es [F [_ [GL [EN [EE [EX WR]]]]]]].
-  assert (T : forall e, In e (t_edges (r_rhs r1) ++ t_edges (r_rhs r2)) -> el_term (e_lab e) = true).
-  { intros e He. apply in_app_iff in He. destruct He as [He|He]; apply t_edges_in in He; apply He. }
-  destruct (conj_edges_split m _ es _ V F T) as [ENT _].
-  assert (NT : nt_edges (r_rhs r) = es) by (unfold nt_edges; rewrite EE; exact ENT).
+  intros base r1 r2 m r W1 W2 C V H.
+  destruct (conj_rule_edges _ _ _ _ _ W1 W2 C V H) as [es [ts2' [F [S [_ [NT [_ GL]]]]]]].
   split; [|exact GL]. unfold nt_sorted at 3. rewrite NT.
-  rewrite sort_edges_sorted_id; [exact F|].
-  apply (paired_sorted m (nt_sorted r1) (nt_sorted r2)); [apply sort_edges_sorted | exact F].
+  rewrite sort_edges_sorted_id; [exact F | exact S].
 Qed.
